@@ -64,12 +64,17 @@ def check(s):
         s.ob("C18.3", con, len(w[2]) == 2 and w[2][1] == self_ and not w[3], "the writer serialises `self` with the default leaf filters (no filter_spec / is_leaf)", loc,
              key="writer-args", detail=show(w, maxlen=160), necessary_for="writer and reader agree on which leaves are stored")
         parent_missing = any((nz.canon(t) == missing_test and v) or (nz.boolean(("un", "Not", t)) == missing_test and not v) for t, v in p.conds)
+        parent_present = any((nz.canon(t) == missing_test and not v) or (nz.boolean(("un", "Not", t)) == missing_test and v) for t, v in p.conds)
         mk = [(i, e) for i, e in enumerate(p.effects) if isinstance(e[1], tuple) and e[1][0] == "call" and isinstance(e[1][1], tuple) and e[1][1][0] == "attr" and e[1][1][2] == "mkdir"]
-        if parent_missing:
+        if not parent_present:
+            # the directory may be missing on this path (either tested and found missing, or never tested): it has to be created,
+            # with all missing ancestors, before the write; an untested mkdir must tolerate an existing directory
             n_missing += 1
-            ok = len(mk) == 1 and mk[0][0] < wi and mk[0][1][1][1][1] == ("attr", P0, "parent") and dict((k, v) for k, v in mk[0][1][1][3] if k).get("parents") == TRUE
-            s.ob("C18.1", con, ok, "when the parent directory is missing, path.parent.mkdir(parents=True) runs before the write", loc, key="mkdir-before-write",
-                 detail="; ".join(show(e[1], maxlen=120) for _, e in mk) or "no mkdir", necessary_for="saving into not-yet-existing directories works")
+            parents_of = (("attr", P0, "parent"), ("attr", ("call", ("attr", P0, "with_suffix"), (("const", ".eqx"),), ()), "parent"))
+            good = [m_ for m_ in mk if m_[0] < wi and m_[1][1][1][1] in parents_of and dict((k, v) for k, v in m_[1][1][3] if k).get("parents") == TRUE
+                    and (parent_missing or dict((k, v) for k, v in m_[1][1][3] if k).get("exist_ok") == TRUE)]
+            s.ob("C18.1", con, len(good) >= 1, "when the parent directory may be missing, path.parent.mkdir(parents=True) runs before the write (with exist_ok=True unless guarded by an existence test)",
+                 loc, key="mkdir-before-write", detail="; ".join(show(e[1], maxlen=120) for _, e in mk) or "no mkdir", necessary_for="saving into not-yet-existing directories (any number of missing levels) works")
         # suffix rule of the writer, as a function of the abstract suffix
         target = w[2][0]
         suf_tests = [(t, v) for t, v in p.conds if ("attr", P0, "suffix") in set(walk(t))]
@@ -196,5 +201,66 @@ def check(s):
                 s.ob("C18.4", f"{ci.name}.{f.name}", not f.static, "an array-annotated policy field is not static (it is serialised)", P.loc(ci.module, ci.node), key="static-array",
                      detail=ann, necessary_for="every parameter is restored")
     s.notes.append(f"C18.4: {len(pols)} policy classes, {n} array-annotated fields")
-    for r_, n_ in (("C18.1", 2), ("C18.2", 13), ("C18.3", 10), ("C18.4", 1)):
+    # ---------------------------------------------------------------- C18.5 the skeleton can be built: constructors are shape-evaluable
+    check_constructors_traceable(s)
+    for r_, n_ in (("C18.1", 1), ("C18.2", 9), ("C18.3", 6), ("C18.4", 1), ("C18.5", 30)):
         s.floor(r_, n_)
+
+
+ARRAY_FREE = {"jax.numpy.shape", "jax.numpy.ndim", "jax.numpy.size", "jax.numpy.issubdtype", "jax.numpy.dtype", "jax.numpy.result_type", "jax.numpy.finfo", "jax.numpy.iinfo",
+              "jax.numpy.isscalar"}
+
+
+def check_constructors_traceable(s):
+    """deserialize builds its skeleton with eqx.filter_eval_shape(cls, *args, **kwargs): the constructor runs under tracing, where
+    every array (the environment's space bounds included) is an abstract tracer. A Python-level truth test on an array value
+    (if / assert / while / `and` / `or` / `not` / bool() over a jnp computation) raises there, so the policy can be built and
+    saved but never loaded. Rule: no constructor in the policy package branches on the result of a jax.numpy / jax.lax call."""
+    P = s.prog
+    n = 0
+    for m in sorted(P.modules.values(), key=lambda m_: m_.name):
+        if not m.name.startswith("lerax.policy"):
+            continue
+        units = [(ci.name, mname, ci.methods[mname]) for ci in m.classes.values() for mname in ci.methods if mname not in ("render",)]
+        units += [(m.name.rsplit(".", 1)[-1], fname, fn_) for fname, fn_ in m.functions.items()]
+        for owner, mname, fn in units:
+            if True:
+                n += 1
+                bad = []
+
+                def array_calls(expr):
+                    out = []
+                    for c in ast.walk(expr):
+                        if isinstance(c, ast.Call):
+                            parts = []
+                            f = c.func
+                            while isinstance(f, ast.Attribute):
+                                parts.append(f.attr)
+                                f = f.value
+                            if isinstance(f, ast.Name):
+                                q = P.resolve_name(m, f.id, list(reversed(parts)))
+                                if q and q.startswith(("jax.numpy.", "jax.lax.", "jax.nn.", "jax.scipy.")) and q not in ARRAY_FREE:
+                                    out.append(q)
+                    return out
+
+                for node in ast.walk(fn):
+                    tests = []
+                    if isinstance(node, (ast.If, ast.While, ast.IfExp)):
+                        tests.append(node.test)
+                    elif isinstance(node, ast.Assert):
+                        tests.append(node.test)
+                    elif isinstance(node, ast.BoolOp):
+                        tests.extend(node.values[:-1])
+                    elif isinstance(node, ast.UnaryOp) and isinstance(node.op, ast.Not):
+                        tests.append(node.operand)
+                    elif isinstance(node, ast.Call) and isinstance(node.func, ast.Name) and node.func.id in ("bool", "float", "int") and node.args:
+                        tests.append(node.args[0])
+                    for t in tests:
+                        ac = array_calls(t)
+                        if ac:
+                            bad.append(f"line {getattr(t, 'lineno', '?')}: `{ast.unparse(t)[:80]}` forces the value of {ac[0]}")
+                s.ob("C18.5", f"{owner}.{mname}", not bad, "the constructor / policy function never forces an array value to a Python truth value / number (it can run under eqx.filter_eval_shape and jit)",
+                     P.loc(m, fn), key="constructor-forces-array", detail="; ".join(sorted(set(bad))[:4]),
+                     necessary_for="a saved policy of every class can be loaded again: deserialize builds its skeleton by tracing the constructor")
+    if n == 0:
+        raise AnalysisError("C18.5: no policy constructor found")
